@@ -31,7 +31,7 @@ pub struct Obs {
     pub layout: Option<Layout>,
     pub ident_error: Option<String>,
     pub max_threads: usize,
-    /// run counters after the script [seq, par, dispatch, thread_local]
+    /// run counters after the script [seq, par, dispatch, thread_local, run_now]
     pub runs: Option<Vec<u32>>,
     pub dispatch_panic: Option<String>,
     /// run counters that differ from `runs` when the default pool has that many threads
@@ -124,6 +124,10 @@ pub fn observe(ops: &[Op], resmap: &[u8], need: Need) -> Obs {
             d.dispatch(&world);
             ctx.dispatch_no.store(4, std::sync::atomic::Ordering::Relaxed);
             d.dispatch_thread_local(&world);
+            // a dispatcher is itself something that can be run (it can be registered as a thread-local
+            // system of another dispatcher): that is one more full dispatch
+            ctx.dispatch_no.store(5, std::sync::atomic::Ordering::Relaxed);
+            shred::RunNow::run_now(&mut d, &world);
         }));
         if let Err(p) = r {
             o.dispatch_panic = Some(payload_str(&*p));
@@ -142,6 +146,7 @@ pub fn observe(ops: &[Op], resmap: &[u8], need: Need) -> Obs {
                         d2.dispatch_par(&world);
                         d2.dispatch(&world);
                         d2.dispatch_thread_local(&world);
+                        shred::RunNow::run_now(&mut d2, &world);
                     }));
                     if let Err(p) = r {
                         o.dispatch_panic = Some(format!("default pool of {} threads: {}", n, payload_str(&*p)));
